@@ -36,7 +36,7 @@ def main(tier, seed, budget):
     cfgs, skipped = configs.pool(crng, n_sub=60 if quick else 300, max_n=5, cap=1000 if quick else 3000, deep=True)
     hashseeds = [0] if quick else [0, 1, 2, 3]
     deadline = time.time() + (budget or (170 if quick else 1500))
-    stats = dict(worlds=0, functions=0, merged=0, mapped=0, nan_chains=0, points=0, inconclusive=0, family_ok=0, family_inconclusive=0, rechecked_equal=0, rechecked_noise=0, nontrivial=set(), events=0,
+    stats = dict(worlds=0, functions=0, merged=0, mapped=0, nan_chains=0, points=0, inconclusive=0, family_ok=0, family_inconclusive=0, rechecked_equal=0, rechecked_noise=0, round_checked=0, nontrivial=set(), events=0,
                  not_run=0, wall_timeouts=[], real_cap_expiries=0, not_generated=[])
     samples = []
     pending_min = []
@@ -65,7 +65,7 @@ def main(tier, seed, budget):
                 stats['worlds'] += 1
                 stats['events'] += r['steps']
                 st = r.get('stats') or {}
-                for k in ('functions', 'merged', 'mapped', 'nan_chains', 'points', 'inconclusive', 'family_ok', 'family_inconclusive', 'rechecked_equal', 'rechecked_noise'):
+                for k in ('functions', 'merged', 'mapped', 'nan_chains', 'points', 'inconclusive', 'family_ok', 'family_inconclusive', 'rechecked_equal', 'rechecked_noise', 'round_checked'):
                     stats[k] += st.get(k, 0)
                 if st.get('merged', 0) > 0:
                     stats['nontrivial'].add((a['runname'], a['compl'], hs))
@@ -107,7 +107,7 @@ def main(tier, seed, budget):
         configurations_not_run_budget=stats['not_run'], configurations_wall_timeout=stats['wall_timeouts'], sub_basis_configurations_not_generated=stats['not_generated'],
         real_time_cap_expiries=stats['real_cap_expiries'], functions_checked=stats['functions'], functions_merged=stats['merged'],
         functions_with_recorded_map=stats['mapped'], functions_marked_unrecoverable=stats['nan_chains'],
-        oracle_points_evaluated=stats['points'], same_family_pairs_confirmed=stats['family_ok'], same_family_pairs_inconclusive=stats['family_inconclusive'],
+        oracle_points_evaluated=stats['points'], final_maps_compared_with_round_files=stats['round_checked'], same_family_pairs_confirmed=stats['family_ok'], same_family_pairs_inconclusive=stats['family_inconclusive'],
         oracle_points_rechecked_equal_at_200_digits=stats['rechecked_equal'], oracle_points_discarded_as_unstable=stats['rechecked_noise'], oracle_inconclusive_functions=stats['inconclusive'], hash_seeds=hashseeds,
         seam_events=stats['events'], runs_per_hour=round(3600.0 * stats['worlds'] / max(wall, 1e-9)),
         fault_kinds={'none (baseline configuration)': 0, 'F6 hash seed': len(hashseeds)}, components=base.COMPONENTS,
